@@ -219,14 +219,27 @@ func ModuleEntries() []Entry {
 			gc := f.Opt("gc", ` gc "statepoint-example"`)
 			extra := ""
 			if def {
-				switch f.N("prefix-prologue-personality", 4) {
+				// independent options, in grammar order, so that combinations (and, for C05, a
+				// fault in an earlier field followed by a good later field) are enumerated.
+				switch f.N("prefix", 3) {
 				case 1:
-					extra = " prefix i32 123"
+					extra += " prefix i32 123"
 				case 2:
-					extra = " prologue i8 144"
-				case 3:
+					g := f.Uniq("pfx")
+					f.TopLine("@%s = global i32 7", g)
+					extra += " prefix i32* @" + g
+				}
+				switch f.N("prologue", 3) {
+				case 1:
+					extra += " prologue i8 144"
+				case 2:
+					g := f.Uniq("plg")
+					f.TopLine("@%s = global i8 9", g)
+					extra += " prologue i8* @" + g
+				}
+				if f.Flip("personality") {
 					f.Need(declPers)
-					extra = " personality i8* bitcast (i32 (...)* @__gxx_personality_v0 to i8*)"
+					extra += " personality i8* bitcast (i32 (...)* @__gxx_personality_v0 to i8*)"
 				}
 			}
 			md := ""
